@@ -258,6 +258,12 @@ class StorageSystem(explore.System):
                 ids = sorted(id(x) for x in ret)
                 if ids != sorted(id(x) for x in self.recs):
                     viol.append(("all_is_not_the_record_set", {"event": list(ev), "n": len(ret)}))
+                # the caller owns the returned list: emptying it must not empty the storage (checked by the invariants below)
+                try:
+                    ret.clear()
+                    ret.append("scribble")
+                except Exception:  # noqa: BLE001
+                    pass
 
         # ---- global invariants after every transition ---------------------------------------------
         snap = self._snapshot_impl()
